@@ -256,8 +256,11 @@ def run(eng, R):
         for cname in ("FitBase", "XYFit"):
             a = get_func(p, cname, "_iterative_fits_needed")
             b = get_func(p, cname, "_second_fit_needed")
-            ta = [_txt(r.value) for r in ast.walk(a.node) if isinstance(r, ast.Return)]
-            tb = [_txt(r.value) for r in ast.walk(b.node) if isinstance(r, ast.Return)]
+            # what the two predicates return for an instance of this class (a shared helper parameterised by the algorithm name, possibly overridden, is read through)
+            ka = common.returned_for_class(p.find_class(cname), "_iterative_fits_needed")
+            kb = common.returned_for_class(p.find_class(cname), "_second_fit_needed")
+            ta = [_txt(ka)] if ka is not None else [_txt(r.value) for r in ast.walk(a.node) if isinstance(r, ast.Return)]
+            tb = [_txt(kb)] if kb is not None else [_txt(r.value) for r in ast.walk(b.node) if isinstance(r, ast.Return)]
             ok = len(ta) == 1 and len(tb) == 1 and "== 'iterative'" in ta[0] and "== 'nonlinear'" in tb[0] and ta[0].replace("'iterative'", "ALG") == tb[0].replace("'nonlinear'", "ALG")
             R.ob("F5-sib", "%s:needed predicates" % cname, ok, (a.file, a.lineno),
                  "%s._iterative_fits_needed and ._second_fit_needed must test the same dynamic-uncertainty condition, for 'iterative' and 'nonlinear' respectively" % cname)
@@ -267,7 +270,7 @@ def run(eng, R):
                 R.ob("F5-sib", "%s:dynamic condition" % cname, all(x in dyn for x in need) and " and self._dynamic_error_algorithm == 'iterative'" in dyn, (a.file, a.lineno),
                      "the refit condition must cover model-relative uncertainties%s" % (" and x uncertainties" if cname == "XYFit" else ""))
                 if cname == "XYFit":
-                    r = [r.value for r in ast.walk(a.node) if isinstance(r, ast.Return)][0]
+                    r = ka if ka is not None else [r.value for r in ast.walk(a.node) if isinstance(r, ast.Return)][0]
                     shape = isinstance(r, ast.BoolOp) and isinstance(r.op, ast.And) and isinstance(r.values[0], ast.BoolOp) and isinstance(r.values[0].op, ast.Or)
                     R.ob("F5-sib", "XYFit:dynamic condition shape", shape, (a.file, a.lineno), "the condition must be (relative model errors or x errors) and algorithm")
         for fn, args in (("_set_data_as_model_ref", ""), ("_pre_fit_iteration", "first_fit"), ("_post_fit_iteration", "runtime, first_fit")):
